@@ -245,6 +245,34 @@ pub fn judge_as(prop: &str, c: &BigCase, l: &mut Local) {
         if t.trak.mdia.mdhd.duration != sum {
             return fail("mdhd_duration_via_reader", json!({"got": t.trak.mdia.mdhd.duration, "expected": sum}), l);
         }
+        // the track header duration (movie units) and the accessor, as the reader reports them
+        let ts = c.tracks[ti].1 as u128;
+        if ts != 0 {
+            let want = (sum as u128 * c.movie_ts as u128 / ts) as u64;
+            let got = t.trak.tkhd.duration;
+            if got.max(want) - got.min(want) > 1 {
+                return fail("tkhd_duration_via_reader", json!({"track": id, "got": got, "expected": want}), l);
+            }
+            let d = t.duration().as_secs_f64();
+            let true_s = sum as f64 / ts as f64;
+            if (d - true_s).abs() > (1.0 / ts as f64).max(1e-6) + 1e-6 + true_s * 1e-12 {
+                return fail("track_duration_accessor", json!({"track": id, "got_s": d, "expected_s": true_s}), l);
+            }
+        }
+    }
+    {
+        let longest: u64 = model.iter().enumerate().map(|(ti, s)| if c.tracks[ti].1 == 0 { 0 } else { (s.iter().map(|x| x.dur as u128).sum::<u128>() * c.movie_ts as u128 / c.tracks[ti].1 as u128) as u64 }).max().unwrap_or(0);
+        let got = r.moov.mvhd.duration;
+        if got.max(longest) - got.min(longest) > 1 {
+            return fail("mvhd_duration_via_reader", json!({"got": got, "expected": longest}), l);
+        }
+        if c.movie_ts != 0 {
+            let d = r.duration().as_secs_f64();
+            let true_s = longest as f64 / c.movie_ts as f64;
+            if (d - true_s).abs() > 1.0 / c.movie_ts as f64 + 1e-3 + true_s * 1e-12 {
+                return fail("movie_duration_accessor", json!({"got_s": d, "expected_s": true_s}), l);
+            }
+        }
     }
     l.nontrivial += 1;
     l.outcome("ok");
